@@ -517,6 +517,19 @@ func RunAllowedCallees(c *Ctx, rule string, funcs, allowed []string, why string)
 					nm = "dynamic:" + t.A[0].String()
 				}
 				good := ok[nm]
+				if !good && t.K == "dyn" && depth > 0 && cur.Sig != nil {
+					// a call through a function-typed parameter of a followed helper: the functions handed in were checked
+					// at the helper's call site (below)
+					if id, isID := unparen(call.Fun).(*ast.Ident); isID {
+						if v, isVar := info.Uses[id].(*types.Var); isVar {
+							for i := 0; i < cur.Sig.Params().Len(); i++ {
+								if cur.Sig.Params().At(i) == v {
+									good = true
+								}
+							}
+						}
+					}
+				}
 				if !good {
 					// builtins that only measure (len, cap) compute nothing a matching rule could be smuggled through
 					if id, isID := unparen(call.Fun).(*ast.Ident); isID {
@@ -531,6 +544,31 @@ func RunAllowedCallees(c *Ctx, rule string, funcs, allowed []string, why string)
 							for _, g := range c.P.Funcs {
 								if g.Obj == fn.Origin() && g.Body != nil {
 									c.R.Obl(Obligation{Rule: rule, Func: name, Construct: "call " + nm + " (helper, followed)", Pos: c.P.Position(call.Pos()), Discharged: true, Nontrivial: true})
+									// functions handed to the helper as values are held to the allow-list here
+									for _, a := range call.Args {
+										var fid *ast.Ident
+										switch x := unparen(a).(type) {
+										case *ast.Ident:
+											fid = x
+										case *ast.SelectorExpr:
+											fid = x.Sel
+										}
+										if fid == nil {
+											continue
+										}
+										if afn, isFn := info.Uses[fid].(*types.Func); isFn {
+											an := calleeName(afn)
+											if afn.Pkg() != nil && !inModule(afn.Pkg().Path()) {
+												an = afn.Pkg().Name() + "." + afn.Name()
+											}
+											agood := ok[an]
+											c.R.Obl(Obligation{Rule: rule, Func: name, Construct: "function value " + an + " handed to " + nm, Pos: c.P.Position(a.Pos()), Discharged: agood, Nontrivial: true})
+											if !agood {
+												c.R.Find(Finding{Rule: rule, Func: name, Construct: "function value " + an + " outside the allow-list", Pos: c.P.Position(a.Pos()),
+													Msg: fmt.Sprintf("%s hands %s to %s, which is not on the reviewed allow-list of rule %s (%s)", cur.Name, an, nm, rule, why)})
+											}
+										}
+									}
 									scan(g, depth+1)
 									return true
 								}
